@@ -108,3 +108,14 @@ prop("C07",
      "(refs/statemachine.json): an off-by-one in any of the ~90 state numbers, a changed emission guard, a new emission or a missing one is reported with its position.",
      "Behaviour of the emitted text beyond these numbers (target-language syntax, the Impl methods themselves); that the reference state machine accepts exactly the legal call sequences was established by review, not mechanically.",
      COMMON_ASSUME)
+
+prop("C19",
+     "Structural clauses of 'one meaning per computed field': (X1) the promotion table commonTypeMap is inserted under both operand orders, has no "
+     "conflicting rows and never narrows; (X5) in resolveComputedFields every successful typing of an arithmetic expression passes the small-integer "
+     "promotion switch (or is the ** branch / an error exit), decided on the CFG of the rewriter closure; (X2) the C++, Python and MATLAB expression "
+     "emitters handle every Expression kind, every BinaryOperator and the same built-in functions; (X3) in each emitter the parenthesisation test in "
+     "front of an operand inspects that operand, the right operand is parenthesised at equal precedence (left associativity) and the left operand of "
+     "** keeps its parentheses; (X4) the operator token of every (back end, operator, integer/other result type) equals refs/operators.json.",
+     "Numeric results and overflow behaviour; Python `//` floors where C++ `/` truncates for negative integers and MATLAB `./` rounds integers "
+     "(cross-language differences in the meaning of the reference tokens themselves: recorded in DESIGN.md, not decidable or repairable here).",
+     COMMON_ASSUME + ["refs/operators.json names, per target language, the operator with the mathematical meaning for in-range operands"])
